@@ -1029,6 +1029,14 @@ fn make_var_heavy(r: &mut Rng, p: &mut Prog, d: &J) {
         let kq3 = if shape <= 3 || shape == 6 { kq.clone() } else { kq_plain };
         p.rules.push(rule("tw3_a".into(), vec![], vec![Line { alts: vec![Clause::Call { not: false, name: "twp".into(), args: vec![Arg::Query(kq3.clone()), Arg::Lit(l3.clone())], msg: None }] }]));
         p.rules.push(rule("tw3_b".into(), vec![], vec![cmp(kq3, op3, not3, Some(rules::Rhs::Lit(l3)))]));
+        // (4) the emptiness test on a parameter whose argument is an empty selection (the filter
+        // nothing passes): the result set is empty in the callee as it is in place
+        if shape == 6 {
+            let neg = r.chance(1, 2);
+            p.prules.push(rules::PRule { name: "twe".into(), params: vec!["tx".into()], body: Body { lets: vec![], lines: vec![cmp(var("tx"), Op::Empty, neg, None)] } });
+            p.rules.push(rule("tw4_a".into(), vec![], vec![Line { alts: vec![Clause::Call { not: false, name: "twe".into(), args: vec![Arg::Query(kq.clone())], msg: None }] }]));
+            p.rules.push(rule("tw4_b".into(), vec![], vec![cmp(kq.clone(), Op::Empty, neg, None)]));
+        }
     }
     // an inner variable that shadows an outer one and is defined THROUGH another outer variable
     // whose own definition uses the outer one (sx -> sy -> outer sx): legal, no cycle; which
